@@ -13,6 +13,8 @@ def run(ctx):
                       "PREPARE quorum for the proposal, nor before timeout unless the quorum is impossible; voted values are prefixes "
                       "of the input or quorum-backed.",
         trusted_base=g.TRUSTED,
-        assumptions=["delivered messages passed the real validator (C05)"],
+        assumptions=["delivered messages passed the real validator (C05): MsgValid, the hypothesis of no_internal_error_or_panic(_participant)",
+                     "the instance is started once, before anything else (Participant.beginInstance); non-empty input; total scaled "
+                     "power > 0 (each shown necessary by a decide-checked example in Props/C07)"],
         search=g.search("C07-"),
     )
